@@ -253,7 +253,8 @@ func CoerceString(v Value) string {
 	case int, int8, int16, int32, int64, uint, uint8, uint16, uint32, uint64:
 		return fmt.Sprintf("%v", vc)
 	case Number:
-		return fmt.Sprintf("%v", callNumber(vc))
+		f := callNumber(vc)
+		return formatFloat(f, f)
 	case Boolean:
 		if b, _ := callPromoted(v, "Boolean", func() Value { return vc.Boolean() }).(bool); b {
 			return "1" // Twig compatibility (aka PHP compatibility)
